@@ -197,6 +197,21 @@ def F64.divNat (f : F64) (d : Nat) : F64 :=
     let (q, x) := roundPos num den
     ⟨f.neg, q, x⟩
 
+/-- float64 multiplication `f * c` for a positive integer constant `c` (correctly rounded; the
+products that occur stay far below the overflow threshold) -/
+def F64.mulNat (f : F64) (c : Nat) : F64 :=
+  if f.q = 0 then ⟨f.neg, 0, 0⟩
+  else
+    let num := if f.x ≥ 0 then f.q * c * 2 ^ f.x.toNat else f.q * c
+    let den := if f.x ≥ 0 then 1 else 2 ^ (-f.x).toNat
+    let (q, x) := roundPos num den
+    ⟨f.neg, q, x⟩
+
+/-- `math.Round`: nearest integer, halves away from zero (exact) -/
+def F64.round (f : F64) : F64 :=
+  if f.x ≥ 0 then f
+  else ⟨f.neg, (2 * f.q + 2 ^ (-f.x).toNat) / (2 * 2 ^ (-f.x).toNat), 0⟩
+
 /-- amd64 CVTTSD2SQ: truncation to int64, 0x8000000000000000 when out of range -/
 def f64ToS64 (f : F64) : Int :=
   let m : Int := (f.truncMag : Int)
@@ -232,26 +247,29 @@ inductive Res where
   | now
 deriving Repr, DecidableEq
 
+/-- the unit cascade shared by the Number branch and ConvertTimestampToMillis:
+`if IsTimeInNano(v) { v /= 1000000 }; if !IsTimeInMilli(v) { v *= 1000 }` on uint64 -/
+def scaleUnits (v : Int) : Int :=
+  let v1 := if Gen.IsTimeInNano v then wrapU64 (Int.tdiv v 1000000) else v
+  if !(Gen.IsTimeInMilli v1) then wrapU64 (v1 * 1000) else v1
+
 /-- the `jp.Number` branch of ExtractTimeStamp -/
 def extractNum (t : List Char) : Int :=
-  let parsed : Option Int :=
-    match jpParseInt t with
-    | some v => some (wrapU64 v)                      -- ts_millis = uint64(val)
-    | none =>
-      match jpParseFloat t with
-      | some f => some (f64ToU64 f)                   -- ts_millis = uint64(val)
-      | none => none
-  match parsed with
-  | none => 0
-  | some ts => if !(Gen.IsTimeInMilli ts) then wrapU64 (ts * 1000) else ts
+  match jpParseInt t with
+  | some v => scaleUnits (wrapU64 v)                  -- ts_millis = uint64(val)
+  | none =>
+    match jpParseFloat t with
+    | none => 0
+    | some f =>
+      -- `val >= 0 && !IsTimeInMilli(uint64(val))`: fractional seconds are scaled BEFORE the fraction
+      -- is dropped: `return uint64(math.Round(val * 1000))`
+      if (!f.neg || f.q == 0) && !(Gen.IsTimeInMilli (f64ToU64 f)) then f64ToU64 (f.mulNat 1000).round
+      else scaleUnits (f64ToU64 f)                    -- ts_millis = uint64(val)
 
 /-- `ConvertTimestampToMillis`: `none` = error -/
 def convertTimestampToMillis (s : List Char) (layout : Option Int) : Option Int :=
   match goParseUint s with
-  | some v =>
-    let v1 := if Gen.IsTimeInNano v then wrapU64 (Int.tdiv v 1000000) else v
-    let v2 := if !(Gen.IsTimeInMilli v1) then wrapU64 (v1 * 1000) else v1
-    some v2
+  | some v => some (scaleUnits v)
   | none =>
     match layout with
     | some x => some (wrapU64 x)
